@@ -225,7 +225,13 @@ func (t *Ty) BuildObject() *schema.ObjectSchema {
 		}
 		ps := schema.NewPropertySchema(p.Ty.Build(), nil, p.Required, own(p.RequiredIf), own(p.RequiredIfNot), own(p.Conflicts), def, nil)
 		if p.Disabled {
-			ps.Disable("harness")
+			if len(np.Name) > 0 && np.Name[0]%2 == 0 {
+				// disabled without a reason, as a received description may say (`disabled: true` alone)
+				ps.Disabled = true
+				ps.DisabledReason = nil
+			} else {
+				ps.Disable("harness")
+			}
 		}
 		props[np.Name] = ps
 	}
